@@ -28,6 +28,64 @@ fn pipe2() -> Result<(i32, i32), LaunchError> {
     Ok((fds[0], fds[1]))
 }
 
+/// The traced child sits in its exec stop. Walk its initial stack (argc, argv.., NULL, envp.., NULL, auxv pairs) and
+/// overwrite the key of the AT_SYSINFO_EHDR entry with AT_IGNORE; then detach. Err(errno) when anything is not as
+/// expected (the caller then runs the case without this).
+unsafe fn hide_vdso(child: libc::pid_t) -> Result<(), i32> {
+    let errno = || *libc::__errno_location();
+    let mut status = 0;
+    if libc::waitpid(child, &mut status, 0) != child || !libc::WIFSTOPPED(status) {
+        return Err(libc::ECHILD);
+    }
+    let mut regs: libc::user_regs_struct = core::mem::zeroed();
+    if libc::ptrace(libc::PTRACE_GETREGS, child, 0, &mut regs as *mut libc::user_regs_struct) != 0 {
+        return Err(errno());
+    }
+    let peek = |addr: u64| -> Result<u64, i32> {
+        *libc::__errno_location() = 0;
+        let v = libc::ptrace(libc::PTRACE_PEEKDATA, child, addr as *mut libc::c_void, 0);
+        if v == -1 && errno() != 0 {
+            Err(errno())
+        } else {
+            Ok(v as u64)
+        }
+    };
+    let mut p = regs.rsp;
+    let argc = peek(p)?;
+    p += 8 * (argc + 2); // argc, argv[0..argc], NULL
+    let mut guard = 0;
+    while peek(p)? != 0 {
+        p += 8;
+        guard += 1;
+        if guard > 1_000_000 {
+            return Err(libc::E2BIG);
+        }
+    }
+    p += 8; // envp's NULL
+    let mut found = false;
+    for _ in 0..64 {
+        let key = peek(p)?;
+        if key == 0 {
+            break;
+        }
+        if key == 33 {
+            if libc::ptrace(libc::PTRACE_POKEDATA, child, p as *mut libc::c_void, 1usize) != 0 {
+                return Err(errno());
+            }
+            found = true;
+        }
+        p += 16;
+    }
+    if libc::ptrace(libc::PTRACE_DETACH, child, 0, 0) != 0 {
+        return Err(errno());
+    }
+    if found {
+        Ok(())
+    } else {
+        Err(libc::ENOENT)
+    }
+}
+
 fn set_nonblock(fd: i32) {
     unsafe {
         let fl = libc::fcntl(fd, libc::F_GETFL);
@@ -41,7 +99,7 @@ fn set_nonblock(fd: i32) {
 /// `ids = Some((uid, gid))` (only meaningful when the driver is root): the probe is started by
 /// fork + setgid + setuid + execve instead of posix_spawn, so that AT_UID and AT_GID are two
 /// different non-zero numbers. With `egid` the effective ids differ from the real ones as well.
-pub fn run(path: &str, argv: &[Vec<u8>], envp: &[Vec<u8>], stdin: &[u8], limit: Duration, ids: Option<(u32, u32)>, egid: Option<u32>, timens: Option<(u32, u32)>) -> Result<Outcome, LaunchError> {
+pub fn run(path: &str, argv: &[Vec<u8>], envp: &[Vec<u8>], stdin: &[u8], limit: Duration, ids: Option<(u32, u32)>, egid: Option<u32>, timens: Option<(u32, u32)>, novdso: bool) -> Result<Outcome, LaunchError> {
     let cpath = CString::new(path).expect("probe path");
     let cargs: Vec<CString> = argv.iter().map(|a| CString::new(a.clone()).expect("NUL in argument")).collect();
     let cenv: Vec<CString> = envp.iter().map(|a| CString::new(a.clone()).expect("NUL in env entry")).collect();
@@ -55,7 +113,7 @@ pub fn run(path: &str, argv: &[Vec<u8>], envp: &[Vec<u8>], stdin: &[u8], limit: 
     let (err_r, err_w) = pipe2().inspect_err(|_| close_all(&[in_r, in_w, out_r, out_w]))?;
 
     let mut pid: libc::pid_t = 0;
-    let rc = if ids.is_some() || timens.is_some() {
+    let rc = if ids.is_some() || timens.is_some() || novdso {
         // exec failures travel back over a close-on-exec pipe
         let (st_r, st_w) = pipe2().inspect_err(|_| close_all(&[in_r, in_w, out_r, out_w, err_r, err_w]))?;
         let child = unsafe { libc::fork() };
@@ -124,6 +182,9 @@ pub fn run(path: &str, argv: &[Vec<u8>], envp: &[Vec<u8>], stdin: &[u8], limit: 
                 } else if e == 0 && (libc::setgroups(0, core::ptr::null()) != 0 || libc::setgid(gid) != 0 || libc::setuid(uid) != 0) {
                     e = *libc::__errno_location();
                 }
+                if e == 0 && novdso && libc::ptrace(libc::PTRACE_TRACEME, 0, 0, 0) != 0 {
+                    e = *libc::__errno_location();
+                }
                 if e == 0 {
                     libc::execve(cpath.as_ptr(), pargs.as_ptr() as *const *const libc::c_char, penv.as_ptr() as *const *const libc::c_char);
                     e = *libc::__errno_location();
@@ -150,6 +211,17 @@ pub fn run(path: &str, argv: &[Vec<u8>], envp: &[Vec<u8>], stdin: &[u8], limit: 
                 rc = i32::from_le_bytes(b).max(1);
                 let mut status = 0;
                 unsafe { libc::waitpid(child, &mut status, 0) };
+            } else if novdso {
+                // the new program is stopped at its first instruction: take the vDSO out of its auxiliary vector
+                // (AT_SYSINFO_EHDR -> AT_IGNORE, what a kernel booted with vdso=0 hands out), then let it run
+                if let Err(e) = unsafe { hide_vdso(child) } {
+                    unsafe {
+                        libc::kill(child, libc::SIGKILL);
+                        let mut status = 0;
+                        libc::waitpid(child, &mut status, 0);
+                    }
+                    rc = e.max(1);
+                }
             }
         }
         close_all(&[st_r]);
@@ -179,7 +251,7 @@ pub fn run(path: &str, argv: &[Vec<u8>], envp: &[Vec<u8>], stdin: &[u8], limit: 
     close_all(&[in_r, out_w, err_w]);
     if rc != 0 {
         close_all(&[in_w, out_r, err_r]);
-        return Err(LaunchError::Spawn(rc, if timens.is_some() { "fork+unshare(CLONE_NEWTIME)+execve" } else if ids.is_some() { "fork+setgid+setuid+execve" } else { "posix_spawn" }));
+        return Err(LaunchError::Spawn(rc, if novdso { "fork+PTRACE_TRACEME+execve (auxv rewritten)" } else if timens.is_some() { "fork+unshare(CLONE_NEWTIME)+execve" } else if ids.is_some() { "fork+setgid+setuid+execve" } else { "posix_spawn" }));
     }
 
     set_nonblock(in_w);
